@@ -93,8 +93,11 @@ def gen(seed, tier):
         outside = [x for x in outside if x > head] if kind != 'api:origination' else []
     faults = {}
     if rng.random() < 0.5:
-        for _ in range(rng.choice([1, 2, 4])):
-            ordinal = rng.randint(1, 60)
+        # bursts stay strictly below the retry cap: at most 5 transient replies per request, and fault
+        # ordinals at least 8 attempts apart so that two directives can never hit the same client request
+        slots = rng.sample(range(0, 8), rng.choice([1, 2, 4]))
+        for slot in slots:
+            ordinal = 1 + slot * 8 + rng.randint(0, 1)
             faults[str(ordinal)] = rng.choice(
                 [{'f': 'transient', 'n': rng.randint(1, 5), 'status': rng.choice([500, 502, 503])}, {'f': 'preval', 'n': rng.randint(1, 5)},
                  {'f': 'latency', 'ms': rng.choice([10, 3000, 20000])}]
@@ -435,6 +438,9 @@ def simplify(scn):
 
 
 def valid(scn):
+    ords = sorted(int(k) for k in scn['faults'])
+    if any(b - a < 7 for a, b in zip(ords, ords[1:])) or any(d.get('n', 0) > 5 for d in scn['faults'].values()):
+        return False
     api = scn['kind'].startswith('api:')
     orig = scn['kind'] == 'api:origination'
     if scn['step'] < 1 or not (scn['last'] < scn['head'] < scn['H']):
